@@ -287,7 +287,7 @@ type bZooIface interface{ zoo() }
 
 func TestVerif_C19_BuildTotality(t *testing.T) {
 	res := &verifResult{Check: "Build totality", Property: "C19", Exhaustive: true,
-		Bound: "tag soup: all atom sequences of length <= 3 (thorough: <= 4) over 30 atoms {@ @@ Ident Nope \"a\" 'b' 'cd' `e` \"a\":Ident \"a\":Nope ( ) [ ] { } | ? * + ! ~ (?= (?! : = , 1 \"unterminated '}, each as one field and split over two fields, whole-tag and parser:\"...\" forms, field types string and *struct; every single-atom insertion / deletion / replacement of 14 valid tags; 45 field types (maps, channels, functions, interfaces, arrays, anonymous / recursive / left-recursive / self-embedding structs, self-referential slice and pointer types, Parseable with value and pointer receivers, Capture, TextUnmarshaler, lexer.Token) x 8 tags and as root types; 7 cases of misused options (nil union member, duplicate / empty / non-interface union, unknown token names)",
+		Bound: "tag soup: all atom sequences of length <= 3 (thorough: <= 4) over 30 atoms {@ @@ Ident Nope \"a\" 'b' 'cd' `e` \"a\":Ident \"a\":Nope ( ) [ ] { } | ? * + ! ~ (?= (?! : = , 1 \"unterminated '}, each as one field, split over two fields, and with token-free (white space only) fields before, between and after, whole-tag and parser:\"...\" forms, field types string and *struct; every single-atom insertion / deletion / replacement of 14 valid tags; 45 field types (maps, channels, functions, interfaces, arrays, anonymous / recursive / left-recursive / self-embedding structs, self-referential slice and pointer types, Parseable with value and pointer receivers, Capture, TextUnmarshaler, lexer.Token) x 8 tags and as root types; 7 cases of misused options (nil union member, duplicate / empty / non-interface union, unknown token names)",
 		Rule: "distinct (struct type, tag) inputs; non-trivial = the reference recogniser classifies the tag (valid, or one of the property's four rejection classes)"}
 	def := lexer.MustSimple([]lexer.SimpleRule{{Name: "Ident", Pattern: `[a-z]+`}, {Name: "Int", Pattern: `\d+`}, {Name: "Punct", Pattern: `[^\sa-z\d]`}, {Name: "Whitespace", Pattern: `\s+`}})
 	symbols := map[string]bool{"Ident": true, "Int": true, "Punct": true, "Whitespace": true, "EOF": true}
@@ -383,6 +383,21 @@ func TestVerif_C19_BuildTotality(t *testing.T) {
 				tags = append(tags, []string{"parser:" + strconv.Quote(text)})
 				for cut := 1; cut < len(seq); cut++ {
 					tags = append(tags, []string{strings.Join(seq[:cut], " "), strings.Join(seq[cut:], " ")})
+				}
+				// a field whose tag holds no token at all (white space only) contributes nothing, wherever it stands
+				for cut := 0; cut <= len(seq); cut++ {
+					var tg []string
+					if cut > 0 {
+						tg = append(tg, strings.Join(seq[:cut], " "))
+					}
+					tg = append(tg, " ")
+					if cut < len(seq) {
+						tg = append(tg, strings.Join(seq[cut:], " "))
+					}
+					tags = append(tags, tg)
+					if cut > 0 && cut < len(seq) {
+						tags = append(tags, []string{strings.Join(seq[:cut], " "), `parser:" "`, " ", strings.Join(seq[cut:], " ")})
+					}
 				}
 			}
 			for _, tg := range tags {
